@@ -1,5 +1,5 @@
 From Coq Require Import Permutation.
-From Verif Require Import Lib.Base Gen.MuxOrder Abci.Mux Abci.MuxProofs Gen.MuxSorts Abci.MapOrder Abci.MapOrderProofs Gen.MuxMapSites Abci.MapSites.
+From Verif Require Import Lib.Base Gen.MuxOrder Abci.Mux Abci.MuxProofs Gen.MuxSorts Abci.MapOrder Abci.MapOrderProofs Gen.MuxMapSites Abci.MapSites Abci.LocalOracle.
 
 (* C01 -- replicas compute identical state and results for identical blocks.
    All statements are about the generic multiplexer model Verif.Abci.Mux, for every
@@ -260,3 +260,32 @@ Theorem replicas_hold_the_announced_state :
       exists pre, outs = pre ++ [o].
 Proof. exact MuxProofs.replicas_hold_the_announced_state. Qed.
 Print Assumptions replicas_hold_the_announced_state.
+
+(* ---- node-local mutable stores consulted during execution (class LoggedOnly) ---- *)
+(* Execution with an ARBITRARY node-local store/oracle whose answers are only logged (the
+   upgrade manager's SubmitDescriptor / CancelUpgrade in governance) equals execution without
+   it: same committed state and outputs for every oracle, store content and log. *)
+Theorem exec_block_ignores_local_oracle :
+  forall (S : msig) (L Q Ans : Type) (oracle : L -> Q -> L * Ans) (cfg : localcfg) (apps : list (oracle_app S Q))
+         (proposing : bool) (s : sg_state S) (b : block) (l : L) (log : list Ans),
+    fst (fst (exec_block_o S L Q Ans oracle cfg apps proposing s b l log))
+    = exec_block S cfg (map (oa_app S Q) apps) proposing s b.
+Proof. exact LocalOracle.exec_block_ignores_local_oracle. Qed.
+Print Assumptions exec_block_ignores_local_oracle.
+
+Theorem replicas_with_different_local_stores_agree :
+  forall (S : msig) (L Q Ans : Type) (oracle : L -> Q -> L * Ans) (cfg1 cfg2 : localcfg) (apps : list (oracle_app S Q))
+         (proposing : bool) (s : sg_state S) (b : block) (l1 l2 : L) (log1 log2 : list Ans),
+    fst (fst (exec_block_o S L Q Ans oracle cfg1 apps proposing s b l1 log1))
+    = fst (fst (exec_block_o S L Q Ans oracle cfg2 apps proposing s b l2 log2)).
+Proof. exact LocalOracle.replicas_with_different_local_stores_agree. Qed.
+Print Assumptions replicas_with_different_local_stores_agree.
+
+(* If the answer is USED (seeded C01-4 returned the error), replicas differing only in their
+   local store diverge (witness). *)
+Theorem local_answer_used_refuted :
+  exists (l1 l2 : bool) (s : sg_state toy),
+    fst (end_all_leaky toy bool N bool submit_descriptor (fun e => e) (fun s => s + 1000) [toy_gov] s l1)
+    <> fst (end_all_leaky toy bool N bool submit_descriptor (fun e => e) (fun s => s + 1000) [toy_gov] s l2).
+Proof. exact LocalOracle.local_answer_used_refuted. Qed.
+Print Assumptions local_answer_used_refuted.
